@@ -848,12 +848,16 @@ func racePass() {
 		}
 		rep.Fail(engine.Failure{Class: "race-pass/data-race/" + frame, Detail: "the race detector reported a data race in the free-running pass: " + r.Stderr, Case: map[string]any{"kind": "race-pass", "log": r.Stderr}}, 0)
 	case r.Exit == 4:
-		rep.Fail(engine.Failure{Class: "race-pass/hang", Detail: "a free-running scenario iteration did not finish within 60 s (threads blocked for good): " + r.Stdout, Case: map[string]any{"kind": "race-pass", "log": r.Stdout}}, 0)
+		rep.Fail(engine.Failure{Class: "race-pass/hang", Detail: "a free-running scenario iteration stalled: for 60 consecutive seconds no thread of the process was runnable (threads blocked for good): " + r.Stdout, Case: map[string]any{"kind": "race-pass", "log": r.Stdout}}, 0)
 	case r.Exit == 3:
 		rep.Fail(engine.Failure{Class: "race-pass/oracle-failure", Detail: r.Stdout, Case: map[string]any{"kind": "race-pass", "log": r.Stdout}}, 0)
 	case r.Exit == 2 && strings.Contains(r.Stderr, "fatal error: concurrent map"):
 		// the runtime's own unsynchronised-map detector fired before the race detector did
 		rep.Fail(engine.Failure{Class: "race-pass/fatal/concurrent-map-access", Detail: "the free-running pass died with an unrecoverable runtime error: " + r.Stderr, Case: map[string]any{"kind": "race-pass", "log": r.Stderr}}, 0)
+	case r.Exit == 124:
+		// run.sh's wall-clock limit on the whole free-running pass: a coverage cap, never a verdict (a stalled
+		// iteration is recognised by engine.WaitDone long before; on a loaded machine neither may be reached)
+		rep.Cap("the free-running -race pass did not finish within its 600 s wall-clock limit; its silence is not counted")
 	case r.Exit != 0:
 		engine.HarnessError("free-running pass ended with exit %d: %s %s", r.Exit, r.Stdout, r.Stderr)
 	}
